@@ -72,6 +72,21 @@ Theorem msgq_resize_pinned_refuted : msgq_unfixed_witness = None.
 Proof. exact msgq_resize_unfixed_refuted. Qed.
 Print Assumptions msgq_resize_pinned_refuted.
 
+(* no blocked writer while the queue has room: an invariant of every history since fix
+   e654d99 (nni_msgq_aio_get runs the writer side too); the pinned form kept a writer waiting
+   on an empty queue (witness; replayed through raw REQ, findings/known_findings.txt) *)
+Theorem msgq_no_writer_waits_with_room : forall ops q q' res, AllInv q -> WaitInv q ->
+  msgq_run true q ops = Some (q', res) -> WaitInv q'.
+Proof. exact msgq_waitinv_run. Qed.
+Print Assumptions msgq_no_writer_waits_with_room.
+Theorem msgq_get_leaves_writer_pinned_refuted :
+  exists q res, msgq_get_witness false = Some (q, res) /\ mq_putq q = [(201, 2)]%N /\ mq_len q = 0 /\ mq_cap q = 1.
+Proof. exact msgq_get_leaves_writer_refuted. Qed.
+Print Assumptions msgq_get_leaves_writer_pinned_refuted.
+Example msgq_waitinv_nonvacuous : AllInv (msgq_init 1) /\ WaitInv (msgq_init 1) /\
+  exists q res, msgq_get_witness true = Some (q, res) /\ mq_putq q = [] /\ mq_len q = 1.
+Proof. split; [apply msgq_init_inv|]. split; [intros H; exfalso; apply H; reflexivity|exact msgq_get_admits_writer_on_witness]. Qed.
+
 (* non-vacuity: reachable non-trivial states satisfy the invariants *)
 Example lmq_inv_nonvacuous : exists q, lmq_run true (mkLmq 2 0 1 0 0 0 [0;0]%N) [LResize 5 false; LPut 1%N; LPut 2%N; LGet] = Some (fst (fifo_run (2, []) [LResize 5 false; LPut 1%N; LPut 2%N; LGet]), q) /\ LInv q /\ q_len q = 1.
 Proof.
